@@ -10,7 +10,7 @@
 (* successor was reached before (VIEW hides pre/ev/exp, which only         *)
 (* describe the last transition).                                          *)
 (***************************************************************************)
-EXTENDS RelayProps
+EXTENDS RelayProps, Json, Randomization, IOUtils
 
 CONSTANTS Kinds,      \* request kinds enabled in this configuration
           MaxSid,     \* bound on the session id counter
@@ -121,6 +121,59 @@ MCNext ==
                            ELSE hist
 
 MCSpec == MCInit /\ [][MCNext]_mvars
+
+(***************************************************************************)
+(* Generator mode (tlc -simulate): one successor per step, chosen kind-    *)
+(* first so that every request kind is equally likely whatever the number  *)
+(* of field combinations it has; behaviours of GenDepth steps are written  *)
+(* as JSON, one file each, for the Go harness to replay on the real code.  *)
+(***************************************************************************)
+GenEvent(st) ==
+  LET open   == {x \in Conns : st.conns[x].life # "closed"}
+      closed == {x \in Conns : st.conns[x].life = "closed"}
+      busy   == {x \in open : st.conns[x].q # <<>>}
+      roll   == RandomElement(1..20)
+  IN CASE roll <= 2 /\ DOMAIN st.sess # {} ->
+            [step |-> "Tick", conn |-> 0, req |-> [k |-> "none"], sid |-> RandomElement(DOMAIN st.sess)]
+       [] roll \in 3..5 /\ busy # {} ->
+            [step |-> "Proc", conn |-> RandomElement(busy), req |-> [k |-> "none"], sid |-> 0]
+       [] roll = 6 /\ open # {} ->
+            [step |-> "Disc", conn |-> RandomElement(open), req |-> [k |-> "none"], sid |-> 0]
+       [] roll \in 7..8 /\ closed # {} ->
+            [step |-> "Open", conn |-> RandomElement(closed), req |-> [k |-> "none"], sid |-> 0]
+       [] roll = 9 /\ Recvs /\ open # {} ->
+            [step |-> "Recv", conn |-> RandomElement(open), req |-> RandomElement(ReqsAll[RandomElement(Kinds)]), sid |-> 0]
+       [] OTHER ->
+            IF open = {} THEN [step |-> "Open", conn |-> RandomElement(Conns), req |-> [k |-> "none"], sid |-> 0]
+            ELSE LET c == RandomElement(open) IN
+                 \* a connection that is in no session mostly tries to get into one
+                 IF st.conns[c].sid = 0 /\ "Join" \in Kinds /\ RandomElement(1..10) <= 7
+                 THEN LET j == RandomElement(ReqsAll["Join"]) IN
+                      [step |-> "Req", conn |-> c, sid |-> 0,
+                       req |-> IF RandomElement(1..10) <= 8
+                               THEN [j EXCEPT !.sid = RandomElement({0} \cup DOMAIN st.sess)] ELSE j]
+                 ELSE [step |-> "Req", conn |-> c, req |-> RandomElement(ReqsAll[RandomElement(Kinds)]), sid |-> 0]
+
+GenNext ==
+  /\ Len(hist) < GenDepth
+  /\ \E e \in {GenEvent(cur)} :            \* (a bound variable is evaluated once; a LET would re-draw)
+     LET outs == Step(cur, e) IN
+     \E o \in {RandomElement(outs)} :
+     LET e1 == Observed(cur, e, o)
+         nv == NextViews(views, e1, cur, o.st)
+     IN /\ pre' = cur /\ cur' = o.st /\ ev' = e1 /\ exp' = outs
+        /\ views' = nv
+        /\ gh' = NextGhost(gh, e1, cur, o.st, views, nv)
+        /\ hist' = Append(hist, IF e.step = "Tick" THEN [step |-> e.step, sid |-> e.sid]
+                                ELSE IF e.step \in {"Req", "Recv"} THEN [step |-> e.step, conn |-> e.conn, req |-> e.req]
+                                ELSE [step |-> e.step, conn |-> e.conn])
+
+GenSpec == MCInit /\ [][GenNext]_mvars
+
+GenDir == IF "VERIF_GEN" \in DOMAIN IOEnv THEN IOEnv.VERIF_GEN ELSE "gen"
+Export ==
+  Len(hist) < GenDepth
+  \/ ndJsonSerialize(GenDir \o "/b" \o ToString(TLCGet("stats").traces) \o ".ndjson", <<[steps |-> hist]>>)
 
 (***************************************************************************)
 (* The properties, for every transition                                    *)
